@@ -19,7 +19,8 @@ RULE = ("(a) exhaustive sweep of all 2^(N*m) subintervals for every (N,m), N=2..
         "GetImage(1.0) must be the last subinterval's cell; (b) for larger densities up to N*m = 50, windows of consecutive subintervals at "
         "the start, the end, around every digit-carry position and at random positions: exact centres, probes agree, cells distinct inside "
         "the window; (c) arbitrary boxes: image = lower + u*side within 8 ulp and inside the box; (d) N=1: the image is the affine map, lies "
-        "in the closed cell of its subinterval and inside the segment; (e) the same x passed as Python float/int/bool, numpy float64/float32/longdouble/int64/int32 scalars must give the identical image. Non-trivial: every case; distinct = distinct (N, m, range/window/box).")
+        "in the closed cell of its subinterval and inside the segment; (e) the same x passed as Python float/int/bool, numpy float64/float32/longdouble/int64/int32 scalars must give the identical image. Non-trivial: every case; distinct = distinct (N, m, range/window/box)."
+       ' A third of the box cases examine the public Solver.evolvent of a Solver configured with the box and density (a second live Solver with the same N and m on another box); windows of consecutive subintervals on boxes must land in distinct cells of the configured grid; SetBounds sequences include nearby boxes.')
 ASSUMPTIONS = ["structural checks on the unit box only (exact dyadic arithmetic); arbitrary boxes compared with the affine map within 8 ulp of max(|lower|,|upper|,side)",
                "N=1: C09 defines the map as affine, so 'centre of the cell' is read as 'a point of the cell of subinterval i'",
                "N*m <= 50 so that i/2^(N*m) is exactly representable"]
